@@ -200,6 +200,33 @@ func c09Reassembly2(c *Ctx, rule string) {
 		r.Check(strings.Contains(ks, "uio.Lexer).Read8]"), rule, "dhcpv4.fromBytesCheckEnd: key is the code byte of this instance", c.P.ipos(mu), "symx", "key is "+ks)
 	})
 	r.Check(n == 1, rule, "dhcpv4.fromBytesCheckEnd: one store per option instance", c.P.pos(fn.Pos()), "instance count", fmt.Sprintf("%d map stores", n))
+	// every instance whose value was consumed is stored: no path leads from the Consume call back to the next
+	// iteration without passing the map store (a `continue` on a test of the value drops instances)
+	var mu *ssa.MapUpdate
+	var cons *ssa.Call
+	allInstrs(fn, func(in ssa.Instruction) {
+		if m, ok := in.(*ssa.MapUpdate); ok {
+			mu = m
+		}
+		if cl, ok := in.(*ssa.Call); ok && cl.Call.StaticCallee() != nil && strings.HasSuffix(funcKey(cl.Call.StaticCallee()), "uio.Lexer).Consume") && inCycle(cl.Block()) {
+			cons = cl
+		}
+	})
+	if mu != nil && cons != nil {
+		loop := sccOf(cons.Block())
+		skipped := false
+		for b := range reachFromSuccs(cons.Block(), nil, map[*ssa.BasicBlock]bool{mu.Block(): true}) {
+			// a block of the loop that dominates the Consume block is on the way to the next iteration
+			if loop[b] && b != cons.Block() && b.Dominates(cons.Block()) {
+				skipped = true
+			}
+		}
+		if cons.Block() == mu.Block() {
+			skipped = false
+		}
+		r.Check(!skipped, rule, "dhcpv4.fromBytesCheckEnd: every consumed instance reaches the store", c.P.ipos(mu), "no path from Consume to the next iteration avoids the map store",
+			"an option instance can be consumed and then skipped (a path from Consume back to the loop avoids the store): its bytes are missing from the decoded value")
+	}
 }
 
 // marshalHelpers: f and the functions of its own package it reaches through static calls (depth ≤ 3), f first;
